@@ -30,14 +30,14 @@ COMPONENTS = {
 RULE = ("each run: start EventLoopThread, 1-3 bursts of 1-20 proxied calls of drawn kinds from the other loop (both directions), optional force_stop() at a drawn position, then calls "
         "after close. Non-trivial = the schedule switched threads at a pre-emption point or calls overlapped force_stop or a call raised; distinct = distinct (schedule string, call kinds).")
 ASSUMPTIONS = [
-    "no liveness is promised for calls that overlap force_stop(): a hang is reported only when a blocked caller's call started before force_stop() was issued",
+    "no liveness is promised for calls issued while force_stop() is in progress; a coroutine call that was handed to the owner loop before force_stop() was called must still end (result, exception or cancellation)",
     "a plain call issued before force_stop() may never execute if the loop stops first (queued, not guaranteed); if it executes it executes exactly once and in call order",
     "exceptions of plain calls surface in the owner loop's exception handler",
 ]
-PROBES = ["call.handover", "call.coro_value", "call.coro_raises", "call.plain_none", "call.plain_value", "call.attr", "call.direct", "call.after_close", "force_stop_mid_burst",
+PROBES = ["call.handover", "call.coro_value", "call.coro_slow", "call.coro_raises", "call.plain_none", "call.plain_value", "call.attr", "call.direct", "call.after_close", "force_stop_mid_burst", "force_stop_from_task",
           "preempted_in_proxy", "thread_switches", "typeerror_on_owner", "cancelled_by_stop", "owner_main_direction", "burst_ge_10"]
 
-KINDS = ("coro_value", "coro_raises", "plain_none", "plain_value", "attr")
+KINDS = ("coro_value", "coro_raises", "plain_none", "plain_value", "attr", "coro_slow")
 
 
 class Boom(Exception):
@@ -62,6 +62,12 @@ class Obj:
     async def coro_value(self, x):
         self._note("coro_value", x)
         await asyncio.sleep(0)
+        return ("value", x)
+
+    async def coro_slow(self, x):
+        """A body that stays suspended for a while (like Gateway.send_data waiting for its ACK)."""
+        self._note("coro_slow", x)
+        await asyncio.sleep(0.05)
         return ("value", x)
 
     async def coro_raises(self, x):
@@ -150,9 +156,9 @@ def run(scenario, params, tape, detail=False):
                     try:
                         c["result"] = ("value", await r)
                     except asyncio.CancelledError:
-                        c["result"] = ("cancelled",)
                         if asyncio.current_task().cancelling():
-                            raise
+                            raise  # the harness is tearing the run down: the call itself never produced anything
+                        c["result"] = ("cancelled",)
                     except BaseException as e:  # noqa: BLE001
                         c["result"] = ("raised", e)
                 else:
@@ -169,11 +175,24 @@ def run(scenario, params, tape, detail=False):
                 cs.append(c)
             if direction == "worker":
                 # callers on the main loop
+                # force_stop() either inline (before the later caller tasks of this burst have started) or from a task of its
+                # own queued between the caller tasks, so that earlier callers have already handed their calls over when it runs
+                stop_mode = tape.draw(2, "stop_mode") if stop_pos is not None and scenario != "fixed" else 0
+
+                async def stopper():
+                    st["stop_ev"] = ev()
+                    probe("force_stop_from_task")
+                    thread.force_stop()
+
                 for j, c in enumerate(cs):
                     if stop_pos is not None and j == stop_pos:
-                        st["stop_ev"] = ev()
-                        probe("force_stop_mid_burst")
-                        thread.force_stop()
+                        if stop_mode:
+                            st["stop_planned"] = True
+                            tasks.append(loop.create_task(stopper()))
+                        else:
+                            st["stop_ev"] = ev()
+                            probe("force_stop_mid_burst")
+                            thread.force_stop()
                     tasks.append(loop.create_task(one(c)))
                 if stop_pos is not None and stop_pos >= n:
                     st["stop_ev"] = ev()
@@ -211,7 +230,7 @@ def run(scenario, params, tape, detail=False):
             _cs, ts = await burst(n, kinds, sp)
             all_tasks += ts
             # a direct call from the owner's own loop
-            if direction == "main" and st["stop_ev"] is None:
+            if direction == "main" and st["stop_ev"] is None and not st.get("stop_planned"):
                 probe("call.direct")
                 n0 = len(rec)
                 r = proxy.plain_value(-1)
@@ -225,7 +244,7 @@ def run(scenario, params, tape, detail=False):
                     if v != ("value", -2):
                         viol.append(("C20.direct", "value", f"direct coroutine call returned {v!r}"))
             # methods looked up on one loop and invoked on the other (a stored bound method handed over as a callback)
-            if st["stop_ev"] is None and b == 0 and (scenario == "fixed" or tape.draw(2, "handover")):
+            if st["stop_ev"] is None and not st.get("stop_planned") and b == 0 and (scenario == "fixed" or tape.draw(2, "handover")):
                 probe("call.handover")
                 other_is_worker = direction == "main"  # the non-owner loop
 
@@ -340,6 +359,13 @@ def run(scenario, params, tape, detail=False):
         if res is None:
             if c.get("issued") is None:
                 continue  # the caller task never ran (stopped before)
+            if (direction == "worker" and stop_ev is not None and k.startswith("coro") and c.get("returned") is not None and c["returned"] < stop_ev
+                    and outcome in ("done", "hang")):
+                # handed to the owner loop before force_stop() was even called: the owner loop creates its task before it takes
+                # the snapshot of tasks to cancel (call_soon_threadsafe is FIFO), so the caller gets a result or CancelledError
+                viol.append(("C20.relay", "orphaned-by-stop", f"coroutine call {c['id']} ({k}) was handed to the owner loop at event {c['returned']}, before force_stop() "
+                             f"(event {stop_ev}), and never produced a result or a cancellation"))
+                continue
             if not overl and outcome == "done":
                 viol.append(("C20.relay", "no-result", f"call {c['id']} ({k}) issued at event {c['issued']} never produced a result (no force_stop overlap)"))
             continue
@@ -348,7 +374,7 @@ def run(scenario, params, tape, detail=False):
                 viol.append(("C20.plain", "return-value", f"plain call {c['id']} ({k}) from the other loop returned {res!r} to the caller"))
             if n_exec == 0 and not overl and outcome == "done":
                 viol.append(("C20.plain", "not-executed", f"plain call {c['id']} ({k}) was never executed on the owner's loop although the loop kept running"))
-        elif k == "coro_value":
+        elif k in ("coro_value", "coro_slow"):
             if res[0] == "value" and res[1] != ("value", c["id"]):
                 viol.append(("C20.relay", "wrong-value", f"coroutine call {c['id']} returned {res[1]!r}"))
             elif res[0] == "raised" and not overl:
